@@ -188,7 +188,13 @@ def solve_query(q,timeout_ms=20000,want_model=True):
   r2=cvc5_check(s.to_smt2(),timeout_ms)
   dt=time.time()-t0
   if r2=='unsat': return 'unsat',dt,'cvc5',None
-  return 'unknown',dt,'z3+cvc5',None
+  # quantifier instantiation is sensitive to the search order: two more attempts with other random seeds before giving up
+  for seed in (11,23):
+    s3=z3.Solver(); s3.set('timeout',timeout_ms); s3.set('random_seed',seed)
+    for a in base: s3.add(a)
+    for i in insts.get(2,[]): s3.add(i)
+    if s3.check()==z3.unsat: return 'unsat',time.time()-t0,'z3(reseeded)',None
+  return 'unknown',time.time()-t0,'z3+cvc5',None
 
 def cvc5_check(smt2,timeout_ms):
   with tempfile.NamedTemporaryFile('w',suffix='.smt2',delete=False) as f:
